@@ -48,7 +48,7 @@ package supervisor
 //@   ensures [success-only-after-termination] r0 == nil ==> delta(TerminationSeen) == 1
 //@   ensures [already-terminated-needs-no-signal] delta(TerminationSeen) == 1 && delta(DeadlineAlreadyPast) + delta(DeadlineNotPast) == 0 ==> r0 == nil && delta(SignalSent) == 0
 //@   ensures [past-deadline-is-an-error-without-signal] delta(DeadlineAlreadyPast) == 1 ==> r0 != nil && delta(SignalSent) == 0
-//@   ensures [whole-group-sigkill] delta(SignalSent) <= 1 && delta(KillSignalSent) == delta(SignalSent) && (delta(SignalSent) == 1 ==> delta(GroupLookup) == 1 && (delta(GroupFound) == 1 && lastret(GroupLookup) >= 0 ==> lastarg(SignalSent, 0) == 0 - lastret(GroupLookup)) && (delta(GroupFound) == 0 ==> lastarg(SignalSent, 0) == p.pid))
+//@   ensures [whole-group-sigkill] delta(SignalSent) <= 1 && delta(KillSignalSent) == delta(SignalSent) && (delta(SignalSent) == 1 ==> delta(GroupLookup) == 1 && (delta(GroupFound) == 1 && lastret(GroupLookup) >= 0 ==> lastarg(SignalSent, 0) == 0 - lastret(GroupLookup)) && (delta(GroupFound) == 0 ==> lastarg(SignalSent, 0) == 0 - p.pid))
 //@   ensures [outliving-the-deadline-is-an-error] delta(KillDeadlineHit) == 1 ==> r0 != nil
 
 //@ func (*LocalSupervisor).Kill
@@ -63,4 +63,4 @@ package supervisor
 //@   ensures [the-signal-is-addressed-to-the-group-in-every-case] delta(SignalSent) == 1 ==> lastarg(SignalSent, 0) < 0
 //@   ensures [other-domains-are-a-no-op] req.Domain != "runtime" ==> r0 == nil && delta(SignalSent) == 0
 //@   ensures [unknown-name-is-an-error] req.Domain == "runtime" && !old(has(s.processMap, req.Name)) ==> r0 != nil && delta(SignalSent) == 0
-//@   ensures [sigterm-to-the-group-without-waiting] req.Domain == "runtime" && old(has(s.processMap, req.Name)) ==> r0 == nil && delta(SignalSent) == 1 && delta(TermSignalSent) == 1 && delta(GroupLookup) == 1 && (delta(GroupFound) == 1 && lastret(GroupLookup) >= 0 ==> lastarg(SignalSent, 0) == 0 - lastret(GroupLookup)) && delta(TerminationSeen) == 0 && delta(KillDeadlineHit) == 0
+//@   ensures [sigterm-to-the-group-without-waiting] req.Domain == "runtime" && old(has(s.processMap, req.Name)) ==> r0 == nil && delta(SignalSent) == 1 && delta(TermSignalSent) == 1 && delta(GroupLookup) == 1 && (delta(GroupFound) == 1 && lastret(GroupLookup) >= 0 ==> lastarg(SignalSent, 0) == 0 - lastret(GroupLookup)) && (delta(GroupFound) == 0 ==> lastarg(SignalSent, 0) == 0 - old(s.processMap[req.Name].pid)) && delta(TerminationSeen) == 0 && delta(KillDeadlineHit) == 0
